@@ -149,34 +149,54 @@ func VerifLemma_C16B_SingleModule() {
 	vRoundTripV2(ext)
 }
 
-// VerifLemma_C16B_TwoModules: two modules (directories ".", concrete or symbolic); each has its own sections or
-// inherits the workspace-level ones; exercises the writer's hoisting of identical sections.
+// vSectionFor returns the check sections of a module for one of 4 shapes:
+// 0 inherit (empty) | 1 own lint+breaking | 2 own lint with an ignore below the module | 3 lint ignoring the module
+// directory itself (checks switched off).
+func vSectionFor(shape int, dir string, n int) (externalBufYAMLFileLintV2, externalBufYAMLFileBreakingV1Beta1V1V2) {
+	var l externalBufYAMLFileLintV2
+	var b externalBufYAMLFileBreakingV1Beta1V1V2
+	switch shape {
+	case 1:
+		l.Use = []string{vIDPool[1]}
+		b.Use = []string{vIDPool[2]}
+	case 2:
+		l.Use = []string{vIDPool[1]}
+		l.Ignore = []string{vUnder(dir, vCompPrintable(n))}
+	case 3:
+		l.Ignore = []string{dir}
+	}
+	return l, b
+}
+
+// VerifLemma_C16B_TwoModules: two named modules (first at "." or "p", second at a symbolic directory); each has its
+// own sections or inherits the workspace-level ones; exercises the writer's hoisting of identical sections and the
+// "workspace-level ignore names a module" form of switching checks off.
 func VerifLemma_C16B_TwoModules() {
 	n := verifParam("N")
 	ext := externalBufYAMLFileV2{Version: "v2"}
 	for i := 0; i < 2; i++ {
 		var m externalBufYAMLFileModuleV2
-		switch verifNondetChoice(2) {
-		case 0:
-			m.Path = []string{".", "p"}[i]
-		case 1:
+		if i == 0 {
+			m.Path = []string{".", "p"}[verifNondetChoice(2)]
+		} else {
 			m.Path = vCompPrintable(n)
 		}
 		m.Name = vNamePool[i]
 		if verifParam("FILES") > 0 {
 			vNondetFiles(&m, n)
 		}
-		if verifNondetBool() {
-			m.Lint = vNondetExternalLintV2(vNondetIgnoreFor(m.Path, n))
-			if verifNondetBool() {
-				m.Breaking = vNondetExternalBreaking("")
-			}
-		}
+		m.Lint, m.Breaking = vSectionFor(verifNondetChoice(4), m.Path, n)
 		ext.Modules = append(ext.Modules, m)
 	}
-	if verifNondetBool() {
-		ext.Lint = vNondetExternalLintV2(vNondetIgnoreFor(ext.Modules[1].Path, n))
-		ext.Breaking = vNondetExternalBreaking("")
+	switch verifNondetChoice(4) {
+	case 1:
+		ext.Lint, ext.Breaking = vSectionFor(1, ".", n)
+	case 2:
+		// workspace-level lint that switches the second module off
+		ext.Lint, _ = vSectionFor(3, ext.Modules[1].Path, n)
+	case 3:
+		// workspace-level lint with an ignore below the first module
+		ext.Lint, _ = vSectionFor(2, ext.Modules[0].Path, n)
 	}
 	vRoundTripV2(ext)
 }
